@@ -511,11 +511,57 @@ static std::string exec(const std::vector<std::string>& t, std::string& preds) {
                 with_arg(t[2], units, [&](auto&& a) { upa::url c(a, base); ctor_state = full_state(c); return true; });
                 ct = true;
             } catch (const upa::url_error&) { ct = false; }
-            ok = with_arg(t[2], units, [&](auto&& a) { return g_url[k].parse(a, base) == upa::validation_errc::ok; });
+            const upa::url* real_base = b.kind == 1 ? &g_url[b.slot] : nullptr;   // may be the target itself
+            ok = with_arg(t[2], units, [&](auto&& a) { return g_url[k].parse(a, real_base) == upa::validation_errc::ok; });
         }
         // C09: parse, can_parse and the throwing constructor agree, objects equal
         preds += (ok == ct && (!ok || ctor_state == full_state(g_url[k]))) ? " ct=1" : " ct=0";
         return std::string("ok=") + (ok ? "1" : "0") + " cp=" + (cp ? "1" : "0") + " " + obj_line(g_url[k], preds);
+    }
+    // ---- self-referential arguments: the argument is a VIEW of the object's own storage
+    if ((op == "aset" && t.size() == 4) || (op == "aparse" && t.size() == 2) || (op == "aparseb" && t.size() == 4)) {
+        const int k = std::atoi(t[1].c_str());
+        upa::url& u = g_url[k];
+        auto units_of = [](const std::string& v) { std::string r; static const char* d = "0123456789abcdef"; for (unsigned char c : v) { if (!r.empty()) r += ','; if (c >> 4) r += d[c >> 4]; r += d[c & 15]; } return r.empty() ? std::string("-") : r; };
+        if (op == "aset") {
+            if (!u.is_valid()) return obj_line(u, preds);
+            const std::string& s = t[2];
+            const std::string& g = t[3];
+            auto view = [&]() -> upa::string_view {
+                if (g == "href") return u.href(); if (g == "protocol") return u.protocol(); if (g == "username") return u.username();
+                if (g == "password") return u.password(); if (g == "host") return u.host(); if (g == "hostname") return u.hostname();
+                if (g == "port") return u.port(); if (g == "pathname") return u.pathname(); if (g == "search") return u.search();
+                if (g == "hash") return u.hash(); return u.path();
+            };
+            const std::string val(view().data(), view().size());
+            const std::string before = raw_state(u);
+            const upa::string_view a = view();
+            const bool ret = s == "href" ? u.href(a) : s == "protocol" ? u.protocol(a) : s == "username" ? u.username(a) : s == "password" ? u.password(a) :
+                             s == "host" ? u.host(a) : s == "hostname" ? u.hostname(a) : s == "port" ? u.port(a) : s == "pathname" ? u.pathname(a) :
+                             s == "search" ? u.search(a) : u.hash(a);
+            if (s != "href") g_step = "set " + s + " 8 " + units_of(val) + " " + (ret ? "1" : "0") + " | " + before + " | " + raw_state(u);
+            return std::string("ret=") + (ret ? "1" : "0") + " " + obj_line(u, preds);
+        }
+        bool ok = false, cp = false, ct = false;
+        std::string ctor_state;
+        if (op == "aparse") {
+            if (!u.is_valid()) return obj_line(u, preds);
+            const std::string copy(u.href().data(), u.href().size());
+            cp = upa::url::can_parse(copy);
+            try { upa::url c(copy); ctor_state = full_state(c); ct = true; } catch (const upa::url_error&) { ct = false; }
+            ok = u.parse(u.href(), nullptr) == upa::validation_errc::ok;     // the input is the object's own serialization
+        } else {
+            const auto units = parse_units(t[3]);
+            const upa::url base_copy(u);
+            cp = with_arg(t[2], units, [&](auto&& a) { return upa::url::can_parse(a, &base_copy); });
+            try {
+                with_arg(t[2], units, [&](auto&& a) { upa::url c(a, &base_copy); ctor_state = full_state(c); return true; });
+                ct = true;
+            } catch (const upa::url_error&) { ct = false; }
+            ok = with_arg(t[2], units, [&](auto&& a) { return u.parse(a, &u) == upa::validation_errc::ok; });   // the base is the target
+        }
+        preds += (ok == ct && (!ok || ctor_state == full_state(u))) ? " ct=1" : " ct=0";
+        return std::string("ok=") + (ok ? "1" : "0") + " cp=" + (cp ? "1" : "0") + " " + obj_line(u, preds);
     }
     if (op == "set" && t.size() == 5) {
         const int k = std::atoi(t[1].c_str());
@@ -572,6 +618,7 @@ static std::string exec(const std::vector<std::string>& t, std::string& preds) {
         std::string r = "-";
         auto& sp = u.search_params();
         const std::string before = u.is_valid() ? raw_state(u) : std::string();
+        bool amut = false;
         if (o == "get") {}
         else if (o == "append") with_arg2(E(0), A(0), [&](auto&& n) { return with_arg2(E(1), A(1), [&](auto&& v) { sp.append(n, v); return true; }); });
         else if (o == "set") with_arg2(E(0), A(0), [&](auto&& n) { return with_arg2(E(1), A(1), [&](auto&& v) { sp.set(n, v); return true; }); });
@@ -590,6 +637,11 @@ static std::string exec(const std::vector<std::string>& t, std::string& preds) {
         }
         else if (o == "sort") sp.sort();
         else if (o == "clear") sp.clear();
+        else if (o == "aparse") {
+            // the argument is a view of one of the list's own values: sp.parse(*sp.get(name))
+            const std::string* v = with_arg(E(0), A(0), [&](auto&& n) { return sp.get(n); });
+            if (v) { sp.parse(*v); amut = true; } else r = "0";
+        }
         else if (o == "parse") with_arg(E(0), A(0), [&](auto&& q) { sp.parse(q); return true; });
         else if (o == "size") r = std::to_string(sp.size());
         else if (o == "str") r = hx(sp.to_string());
@@ -597,7 +649,7 @@ static std::string exec(const std::vector<std::string>& t, std::string& preds) {
         else if (o == "safea") sp.safe_assign(std::move(g_params[std::atoi(t[3].c_str())]));
         else r = "?";
         const bool mutating = o == "append" || o == "set" || o == "del" || o == "del2" || o == "sort" || o == "clear" ||
-                              o == "parse" || o == "assign" || o == "safea";
+                              o == "parse" || o == "assign" || o == "safea" || amut;
         if (mutating && u.is_valid()) {
             // C06: after an edit the URL's search is exactly the serialization of the list; query null iff list empty
             const std::string ser = sp.to_string();
@@ -641,6 +693,12 @@ static std::string exec(const std::vector<std::string>& t, std::string& preds) {
         }
         else if (o == "sort") p.sort();
         else if (o == "clear") p.clear();
+        else if (o == "aparse") {
+            const std::string* v = with_arg(E(0), A(0), [&](auto&& n) { return p.get(n); });
+            if (v) p.parse(*v); else r = "0";
+        }
+        else if (o == "aappend") { if (p.empty()) r = "0"; else p.append(p.begin()->first, p.begin()->second); }
+        else if (o == "aset") { if (p.empty()) r = "0"; else p.set(p.begin()->first, std::prev(p.end())->second); }
         else if (o == "size") r = std::to_string(p.size());
         else if (o == "copy") p = g_params[std::atoi(t[3].c_str())];
         else if (o == "fromurl" && !g_url[std::atoi(t[3].c_str())].is_valid()) r = "?";   // params of an invalid URL are not observed
